@@ -770,6 +770,8 @@ func genCase(rng *rand.Rand) acase {
 	c := acase{}
 	kind := rng.Intn(100)
 	switch {
+	case kind < 12:
+		c.Mode = "histogram-burst" // many samples per histogram window, in a random order
 	case kind < 52:
 		c.Mode = "valid"
 	case kind < 70:
@@ -802,6 +804,36 @@ func genCase(rng *rand.Rand) acase {
 	base := k0 * w
 	c.T0 = base + []int64{0, 1, w / 2, w - 1}[rng.Intn(4)]
 	clk := c.T0
+	if c.Mode == "histogram-burst" {
+		// the average/min/max of a histogram window must be those of exactly the values it covers,
+		// in whatever order they arrived: 2-4 histograms, 4-12 samples each, interleaved at random; half
+		// of the histograms have an exactly integral average (where a rounding slip shows as K-1)
+		var stats []*astat
+		for h := 0; h < 2+rng.Intn(3); h++ {
+			id := ident{comps[rng.Intn(len(comps))], hnames[rng.Intn(len(hnames))] + fmt.Sprint(h), "histogram", hunits[rng.Intn(len(hunits))]}
+			k := 4 + rng.Intn(9)
+			vals := make([]int64, k)
+			var sum int64
+			hi := []int{10, 10, 30, 1000, 100000}[rng.Intn(5)]
+			for i := range vals {
+				vals[i] = int64(rng.Intn(hi))
+				sum += vals[i]
+			}
+			if rng.Intn(2) == 0 {
+				// make the sum a multiple of the count
+				vals[0] += (int64(k) - sum%int64(k)) % int64(k)
+			}
+			for _, v := range vals {
+				stats = append(stats, &astat{id.C, id.N, id.T, id.U, v, base + rng.Int63n(w)})
+			}
+		}
+		rng.Shuffle(len(stats), func(i, j int) { stats[i], stats[j] = stats[j], stats[i] })
+		for _, st := range stats {
+			c.Steps = append(c.Steps, step{Op: "F", S: st})
+		}
+		c.Steps = append(c.Steps, step{Op: "A", D: 2*w + grace + 1}, step{Op: "S"})
+		return c
+	}
 	ids := []ident{}
 	for i := 0; i < 1+rng.Intn(3); i++ {
 		ids = append(ids, genIdent(rng))
@@ -1060,3 +1092,4 @@ func replay(cs json.RawMessage) string {
 	}
 	return sb.String()
 }
+
